@@ -43,6 +43,16 @@ func Go6[A, B, C, D, E, F any](f func(A, B, C, D, E, F), a A, b B, c C, d D, e E
 	Go0(func() { f(a, b, c, d, e, g) })
 }
 
+func Go7[A, B, C, D, E, F, G any](f func(A, B, C, D, E, F, G), a A, b B, c C, d D, e E, g F, h G) {
+	Go0(func() { f(a, b, c, d, e, g, h) })
+}
+func Go8[A, B, C, D, E, F, G, H any](f func(A, B, C, D, E, F, G, H), a A, b B, c C, d D, e E, g F, h G, i H) {
+	Go0(func() { f(a, b, c, d, e, g, h, i) })
+}
+func Go9[A, B, C, D, E, F, G, H, I any](f func(A, B, C, D, E, F, G, H, I), a A, b B, c C, d D, e E, g F, h G, i H, j I) {
+	Go0(func() { f(a, b, c, d, e, g, h, i, j) })
+}
+
 // ---- channels -------------------------------------------------------------
 
 // Make stands in for make(chan T, n): the channel gets a canonical identity
